@@ -64,6 +64,8 @@ ViaOf(i, rportForm) ==
     THEN CASE rportForm = "none"   -> ViaE("UDP", "10.0.2.1", 5062, base, 0)
            [] rportForm = "empty"  -> ViaE("UDP", "10.0.2.1", 5062, base \o << <<"rport", NoVal>> >>, 0)
            [] rportForm = "spoof"  -> ViaE("UDP", "10.0.2.1", 5062, << <<"rport", "9">>, <<"branch", "z9hG4bKin1">>, <<"received", "1.2.3.4">> >>, 9)
+           [] rportForm = "spoof2" -> ViaE("UDP", "10.0.2.1", 5062, << <<"received", "1.2.3.4">>, <<"branch", "z9hG4bKin1">>, <<"rport", "9">> >>, 9)
+           [] rportForm = "spoof3" -> ViaE("UDP", "10.0.2.1", 5062, << <<"received", "1.2.3.4">>, <<"rport", NoVal>>, <<"branch", "z9hG4bKin1">> >>, 0)
            [] rportForm = "noport" -> ViaE("TCP", "client.example.com", 0, base, 0)
     ELSE ViaE("UDP", "10.0.2." \o ToString(i), 0, base, 0)
 ViaStackOf(n, rportForm) == [i \in 1..n |-> ViaOf(i, rportForm)]
